@@ -62,23 +62,48 @@ func (p *Prog) electionRoles() *electionRoles {
 		if f.Pkg != ep || f.Signature.Recv() == nil || f.Synthetic != "" {
 			continue
 		}
-		// setter: stores a parameter into a field of the receiver
-		for _, b := range f.Blocks {
-			for _, ins := range b.Instrs {
-				if st, ok := ins.(*ssa.Store); ok {
-					if fa, ok := st.Addr.(*ssa.FieldAddr); ok && resolve(fa.X) == ssa.Value(f.Params[0]) {
-						if prm, ok := st.Val.(*ssa.Parameter); ok && prm != f.Params[0] && len(f.Params) == 2 {
+		// setter: stores its parameter into a field of the receiver (possibly inside a closure run under the lock)
+		if len(f.Params) == 2 {
+			for _, g := range withAnon(f) {
+				for _, b := range g.Blocks {
+					for _, ins := range b.Instrs {
+						st, ok := ins.(*ssa.Store)
+						if !ok {
+							continue
+						}
+						fa, ok := st.Addr.(*ssa.FieldAddr)
+						if ok && p.resolveDeep(fa.X) == ssa.Value(f.Params[0]) && p.resolveDeep(st.Val) == ssa.Value(f.Params[1]) {
 							e.setters[f] = fieldOf(fa)
 						}
 					}
 				}
-				if ret, ok := ins.(*ssa.Return); ok && len(ret.Results) == 1 && len(f.Params) == 1 {
-					if ld, ok := resolve(ret.Results[0]).(*ssa.UnOp); ok && ld.Op == token.MUL {
-						if fa, ok := ld.X.(*ssa.FieldAddr); ok && resolve(fa.X) == ssa.Value(f.Params[0]) {
-							e.getters[f] = fieldOf(fa)
+			}
+		}
+		// getter: returns nothing but the value of one field of the receiver
+		if len(f.Params) == 1 && f.Signature.Results().Len() == 1 {
+			var fld *types.Var
+			pure := true
+			for _, b := range f.Blocks {
+				ret, ok := b.Instrs[len(b.Instrs)-1].(*ssa.Return)
+				if !ok {
+					continue
+				}
+				for _, v := range allCellValuesOpt(p, ret.Results[0], false) {
+					ld, ok := v.(*ssa.UnOp)
+					if ok && ld.Op == token.MUL {
+						if fa, ok := ld.X.(*ssa.FieldAddr); ok && p.resolveDeep(fa.X) == ssa.Value(f.Params[0]) && (fld == nil || fld == fieldOf(fa)) {
+							fld = fieldOf(fa)
+							continue
 						}
 					}
+					if c, ok := v.(*ssa.Const); ok && c.Value == nil {
+						continue // the zero value a named result starts with
+					}
+					pure = false
 				}
+			}
+			if fld != nil && pure {
+				e.getters[f] = fld
 			}
 		}
 	}
@@ -179,7 +204,11 @@ type fieldWrite struct {
 func (e *electionRoles) fieldWrites(p *Prog, fld *types.Var) []fieldWrite {
 	var out []fieldWrite
 	for _, st := range p.fields().stores[fld] {
-		if _, isSetter := e.setters[st.Parent()]; isSetter {
+		top := st.Parent()
+		for top.Parent() != nil {
+			top = top.Parent()
+		}
+		if _, isSetter := e.setters[top]; isSetter {
 			continue
 		}
 		if isFreshObject(st.Addr.(*ssa.FieldAddr).X) {
@@ -446,6 +475,23 @@ func checkC15(p *Prog, res *Result, tier string) {
 			res.bad("C15-R2", construct, p.pos(w.ins.Pos()), "the timestamp is refreshed although the lock write did not commit")
 			continue
 		}
+		// the refresh lives in a helper: the same at each of its call sites in a function that commits a lock write
+		late := false
+		if cm == nil {
+			for _, cs := range p.staticCallers[w.fn] {
+				for _, b := range p.batches() {
+					if b.Fn == cs.Parent() && len(b.Commits) == 1 {
+						if cm2, ok := b.Commits[0].(*ssa.Call); ok && !nilFactOn(cs.Block(), cm2) {
+							res.bad("C15-R2", construct, p.pos(cs.Pos()), "the timestamp is refreshed although the lock write did not commit")
+							late = true
+						}
+					}
+				}
+			}
+		}
+		if late {
+			continue
+		}
 		res.ok("C15-R2", construct, p.pos(w.ins.Pos()), "GetTimestampOracle result")
 	}
 	// Describe prints the field
@@ -460,7 +506,7 @@ func checkC15(p *Prog, res *Result, tier string) {
 			if !ok || b.Comment == "recover" {
 				continue
 			}
-			for _, v := range resolveAllCells(ret.Results[0]) {
+			for _, v := range allCellValuesOpt(p, ret.Results[0], false) {
 				n++
 				if !derivesFromCallArgs(p, v, func(x ssa.Value) bool { return e.fieldRead(p, x, e.tsoF) }) {
 					all = false
@@ -660,6 +706,54 @@ func checkLeaderStart(p *Prog, r *Roles, res *Result, rule string) {
 							flagWrites = append(flagWrites, x)
 						}
 					}
+				}
+			}
+		}
+		// the flag may also be raised by a helper of the election type (setLeader(true)): the leader flag is the field
+		// that the IsLeader implementation reads; a call of a helper that writes it is a flag write at the call site
+		if len(flagWrites) == 0 {
+			flagFields := map[*types.Var]bool{}
+			for _, impl := range p.implsOf(p.ifaceMethod("pkg/server/service/leader", "LeaderElection", "IsLeader")) {
+				if impl.Pkg != cb.Pkg {
+					continue
+				}
+				for _, b := range impl.Blocks {
+					for _, ins := range b.Instrs {
+						if fa, ok := ins.(*ssa.FieldAddr); ok {
+							flagFields[fieldOf(fa)] = true
+						}
+					}
+				}
+			}
+			var writes func(f *ssa.Function, d int) bool
+			writes = func(f *ssa.Function, d int) bool {
+				if f == nil || f.Blocks == nil || d > 2 || f.Pkg != cb.Pkg {
+					return false
+				}
+				for _, b := range f.Blocks {
+					for _, ins := range b.Instrs {
+						switch x := ins.(type) {
+						case *ssa.Store:
+							if fa, ok := x.Addr.(*ssa.FieldAddr); ok && flagFields[fieldOf(fa)] {
+								return true
+							}
+						case *ssa.Call:
+							if n, ok := isAtomicCall(x); ok && (strings.HasPrefix(n, "Store") || strings.HasPrefix(n, "Swap") || strings.HasPrefix(n, "CompareAndSwap")) {
+								if fa, ok := x.Common().Args[0].(*ssa.FieldAddr); ok && flagFields[fieldOf(fa)] {
+									return true
+								}
+							}
+							if writes(x.Common().StaticCallee(), d+1) {
+								return true
+							}
+						}
+					}
+				}
+				return false
+			}
+			for _, c := range callsIn(cb) {
+				if cc, ok := c.(*ssa.Call); ok && writes(c.Common().StaticCallee(), 0) {
+					flagWrites = append(flagWrites, cc)
 				}
 			}
 		}
